@@ -71,7 +71,7 @@ func decorators() []decorator {
 	return ds
 }
 
-var errBases = []string{"boom", "é x", strings.Repeat("long message ", 16), "", "100% %s %d %!v(MISSING)"}
+var errBases = []string{"boom", "é x", strings.Repeat("long message ", 16), "", "100% %s %d %!v(MISSING)", "line one\nline two\n\tthird"}
 
 // buildErr applies the shape (indices into decorators()) to a base error.
 func buildErr(ds []decorator, base string, shape []int) error {
